@@ -563,7 +563,8 @@ func reifySliceMerge(
 
 		switch arrMergeCfg {
 		case cfgReplaceValue:
-			// do nothing
+			// the old entries are dropped, new entries must not be merged into them
+			withOld = false
 
 		case cfgArrAppend:
 			l += ol
